@@ -266,8 +266,7 @@ package etcd
 //@   ensures [header-is-the-backends] err == nil ==> resp != nil && resp.Header != nil && resp.Header.Revision == int64(R.Header.Revision)
 //@   ensures [count-and-kv] err == nil ==> len(resp.Kvs) == ite(R.Kv != nil, 1, 0) && resp.Count == ite(R.Kv != nil, 1, 0) && (R.Kv != nil ==> resp.Kvs[0] != nil && resp.Kvs[0].Key == R.Kv.Key && resp.Kvs[0].Value == R.Kv.Value && resp.Kvs[0].ModRevision == int64(R.Kv.Revision))
 
-// a range read is one backend List of the interval, limit and revision asked for (that every key-value
-// is passed on in order is a conversion loop over append, not claimed); count is the number returned, plus one when more are left (etcd's count is
+// a range read is one backend List of the interval, limit and revision asked for (every key-value is passed on, converted, in order); count is the number returned, plus one when more are left (etcd's count is
 // "at least", Kubernetes only tests it against the number returned)
 //@ func (*backendShim).List(ctx, r) (resp, err)
 //@   props C16
@@ -279,6 +278,9 @@ package etcd
 //@   ensures [one-backend-list-as-asked] backend_reads == old(backend_reads)+1 && be_op == 5 && be_req != nil && Q.Key == r.Key && Q.End == r.RangeEnd && Q.Limit == r.Limit && Q.Revision == uint64(r.Revision)
 //@   ensures [errors-pass-through] (err == nil) == (be_err == nil) && (err != nil ==> resp == nil)
 //@   ensures [header-more-count] err == nil ==> resp != nil && resp.Header != nil && resp.Header.Revision == int64(R.Header.Revision) && resp.More == R.More && resp.Count == ite(R.More, len(R.Kvs)+1, len(R.Kvs))
+
+//@   ensures [every-key-value-in-order] err == nil ==> len(resp.Kvs) == len(R.Kvs) && forall(i, 0 <= i && i < len(resp.Kvs), resp.Kvs[i] != nil && resp.Kvs[i].Key == R.Kvs[i].Key && resp.Kvs[i].Value == R.Kvs[i].Value && resp.Kvs[i].ModRevision == int64(R.Kvs[i].Revision))
+//@   loop 0 invariant [converted-so-far] resp != nil && resp.More == response.More && resp.Header != nil && resp.Header.Revision == int64(response.Header.Revision) && resp.Count == ite(response.More, len(response.Kvs)+1, len(response.Kvs)) && len(resp.Kvs) == rangeindex+1 && -1 <= rangeindex && rangeindex < len(response.Kvs) && forall(i, 0 <= i && i < len(resp.Kvs), resp.Kvs[i] != nil && resp.Kvs[i].Key == response.Kvs[i].Key && resp.Kvs[i].Value == response.Kvs[i].Value && resp.Kvs[i].ModRevision == int64(response.Kvs[i].Revision))
 
 //@ func (*backendShim).Count(ctx, r) (resp, err)
 //@   props C16 C20
